@@ -12,6 +12,7 @@ import ast
 
 from .. import terms as T
 from ..evalstatic import ClassRef, EnumMember, Obj, SEval, Unknown
+from ..paths import unversion
 from ..model import AnalysisError, deco_names
 
 RANKS = {
@@ -245,13 +246,67 @@ def _lookup_core(chk, ctx) -> None:
     else:
         chk.undecided('C04.lookup_core', 'Lookup._add_multisets', am.loc, 'not a single loop over the hashes')
     rr = next((f for n, f in ci.methods.items() if n.endswith('__reset_ranks')), None)
+    m = ctx.m
     if rr is not None:
         calls = [n for n in ast.walk(rr.node) if isinstance(n, ast.Call) and isinstance(n.func, ast.Name) and n.func.id == 'sorted']
         bad = [c for c in calls if any(k.arg in ('reverse', 'key') for k in c.keywords)]
         if calls:
             chk.ob('C04.lookup_core', 'Lookup.__reset_ranks', not bad, rr.loc,
                    'dense re-indexing sorts the indices ascending (order preserving)')
-    chk.floor('C04.lookup_core', 3)
+        # the re-indexing is the rank of the old index among the distinct old indices: every entry is rewritten through a
+        # map built as zip(sorted(distinct indices), 0..n-1) - any other arithmetic on the indices can merge or swap classes
+        collect = bool(m.calls(rr.node, 'indices.add(entry.index)')) and bool(m.fors(rr.node, 'self.__entries.values()')) \
+            or bool(m.exprs(rr.node, '{entry.index for entry in self.__entries.values()}'))
+        table = bool(m.exprs(rr.node, 'dict(zip(sorted(indices), range(len(indices))))')) \
+            or (bool(m.exprs(rr.node, 'dict(zip(sorted_indices, range(len(indices))))')) and bool(m.assigns(rr.node, 'sorted(indices)')))
+        rewrite = False
+        for loop in m.fors(rr.node, 'self.__entries.items()'):
+            for st in loop.body:
+                if isinstance(st, ast.Assign) and len(st.targets) == 1 and T.alpha_eq(
+                        ('assign', T.norm(st.targets[0]), T.norm(st.value)),
+                        ('assign', T.spec('self.__entries[key]'), T.spec('replace(value, index=reset_indices[value.index])')), m.var_test(rr.node)):
+                    rewrite = len(loop.body) == 1
+        missing = [k for k, v in (('the distinct indices of all entries are collected', collect),
+                                  ('old index -> its rank among the sorted distinct indices', table),
+                                  ('every entry is rewritten through that map (nothing else)', rewrite)) if not v]
+        chk.ob('C04.lookup_core', 'Lookup.__reset_ranks:dense', not missing, rr.loc,
+               'dense re-indexing maps each strength index to its rank among the distinct indices (order preserving, no two classes merged)',
+               got=f'not found: {missing}' if missing else 'ok')
+    # the rank-multiset hash is strict: a rank without a prime (the unknown rank) makes the lookup fail instead of counting as 1
+    hf = ci.methods.get('__hash')
+    if hf is None:
+        raise AnalysisError('Lookup.__hash vanished')
+    rets = [unversion(p.outcome[1]) for p in ctx.paths(hf) if p.returned]
+    strict = [T.spec('prod(map(cls.__multipliers.__getitem__, ranks))'), T.spec('prod(cls.__multipliers[rank] for rank in ranks)'),
+              T.spec('prod([cls.__multipliers[rank] for rank in ranks])')]
+    chk.ob('C04.lookup_core', 'Lookup.__hash', len(rets) == 1 and any(T.alpha_eq(rets[0], w, m.var_test(hf.node)) for w in strict), hf.loc,
+           'the hash of a rank multiset is the product of the primes of its ranks, looked up strictly (no default for a rank without a prime: '
+           'an unknown card never completes a hand)', got=[T.show(r) for r in rets])
+    mult = ci.attrs.get('__multipliers') if hasattr(ci, 'attrs') else None
+    # straights: the wheel first (weakest), then every window of `count` consecutive ranks - no shorter window, none missing
+    ast_ = ci.methods.get('_add_straights')
+    if ast_ is None:
+        raise AnalysisError('Lookup._add_straights vanished')
+    wheel = T.spec('self.__hash(self.rank_order[-1:] + self.rank_order[:count - 1])')
+    window = T.spec('self.__hash(self.rank_order[i:i + count])')
+    events = []
+    for st in ast_.node.body:
+        for n in ast.walk(st):
+            if isinstance(n, ast.Call) and isinstance(n.func, ast.Attribute) and n.func.attr.endswith('__add_entry') and n.args:
+                events.append((st, n))
+    ok = len(events) == 2
+    got = f'{len(events)} adder calls'
+    if ok:
+        (s0, c0), (s1, c1) = events
+        first_wheel = not isinstance(s0, ast.For) and T.alpha_eq(T.norm(c0.args[0]), wheel, m.var_test(ast_.node))
+        loop_ok = isinstance(s1, ast.For) and m.eq(T.norm(s1.iter), 'range(len(self.rank_order) - count + 1)', fn=ast_.node) \
+            and isinstance(s1.target, ast.Name) and T.alpha_eq(('p', ('name', s1.target.id), T.norm(c1.args[0])), ('p', ('name', 'i'), window), m.var_test(ast_.node))
+        same_tail = all(len(c.args) == 3 and [T.norm(a) for a in c.args[1:]] == [('name', 'suitednesses'), ('name', 'label')] for c in (c0, c1))
+        ok = first_wheel and loop_ok and same_tail
+        got = f'wheel first: {first_wheel}; windows range(len - count + 1) of rank_order[i:i + count]: {loop_ok}; flags and label passed on: {same_tail}'
+    chk.ob('C04.lookup_core', 'Lookup._add_straights', ok, ast_.loc,
+           'straights are the wheel (weakest, entered first) and every window of exactly `count` consecutive ranks, lowest window first', got=got)
+    chk.floor('C04.lookup_core', 6)
 
 
 def _operators(chk, ctx) -> None:
@@ -343,6 +398,10 @@ def _validity(chk, ctx) -> None:
         catches = any('ValueError' in ast.unparse(h.type) for t in trys for h in t.handlers if h.type is not None)
         rets = [p.outcome[1] for p in ctx.paths(he) if p.returned]
         ok = catches and all(r[0] == 'in' and T.root_self_attr(r[2]) is not None and 'entries' in T.root_self_attr(r[2]) for r in rets) and bool(rets)
+        # the looked-up key is the computed key, or a key no table holds (None) when computing it failed - never an unbound name
+        lefts = [unversion(r[1]) for r in rets if r[0] == 'in']
+        ok = ok and all(x == ('const', None) or (x[0] == 'mcall' and x[2] == '_get_key') for x in lefts) \
+            and any(x == ('const', None) for x in lefts) and any(x != ('const', None) for x in lefts)
     chk.ob('C04.validity', 'Lookup.has_entry', ok, he.loc if he else lk.loc,
            'has_entry never raises for a non-hand (key error mapped to False) and is a membership test of the entry table')
     gk = lk.methods.get('_get_key')
